@@ -152,3 +152,98 @@ Proof. exact new_order_same_schedule. Qed.
 Example C09_overflow_frame_now :
   exists s', handle_back (ClientMgr.init false 4 4 false) (classify_frame overflow_frame) = RFatal s' [] FNotPending.
 Proof. exact (proj2 (proj2 (proj2 old_overflow))). Qed.
+
+(* ---------- the client's own WebSocket ping / inactivity detection (ClientBuilder::enable_ws_ping) ----------
+   Layer pstate/plabel/pstep of Model/ClientShutdown.v: the ping arm of send_task, mark_as_active, the inactivity arm of
+   read_task with InactivityCheck::is_inactive; an inactivity tick is labelled with the outcome of
+   `last_active.elapsed() >= inactive_dur` (the model has no clock).  A trace is any list of plabels. *)
+
+(* the stale tick that brings the count to max_failures, in a connection that is up (all three tasks in their loops,
+   client not dropped): the read task breaks with the inactivity cause, the shutdown protocol of the theorems above runs
+   to its end with exactly that cause, is_connected turns false, and every caller of the state is either answered
+   already or completes with RestartNeeded(inactive) by its own two steps; so does every later call / on_disconnect *)
+Theorem C09_inactivity_fails_everything : forall maxf tr, let p := prun gen_variant (pinit maxf) tr in
+  started (pb p) = false -> maxf <= p_count p + 1 ->
+  let p1 := pstep gen_variant p (LInactTick true) in
+  let s2 := drive gen_variant false (mu (pb p1)) (pb p1) in
+  p_count p1 = p_count p + 1 /\ rp (pb p1) = RReport (Some CInactive) /\
+  all_exited s2 = true /\ reason s2 = Some CInactive /\ h_first s2 = Some (Some CInactive) /\ is_connected s2 = false /\
+  (forall h, get_c s2 h = get_c (pb p) h) /\
+  forall h,
+    match get_c (pb p) h with
+    | Some (CDone OOk) => True
+    | Some (CDone _) | Some CGone => False
+    | Some _ => get_c (run gen_variant s2 [LCallerDropped h; LReadErr h]) h = Some (CDone (OCause CInactive))
+    | None => get_c (run gen_variant s2 [LNewCall h; LReadErr h]) h = Some (CDone (OCause CInactive)) /\
+              get_c (run gen_variant s2 [LOnDisc h; LReadErr h]) h = Some (CDone (OCause CInactive))
+    end.
+Proof. exact inactivity_fails_everything. Qed.
+Print Assumptions C09_inactivity_fails_everything.
+
+(* a run in which the read task processes no stale tick never produces the inactivity cause: not as the recorded
+   reason, not as a report, not in any caller's result (max_failures > 0 is asserted by PingConfig::max_failures) *)
+Theorem C09_active_connection_never_dies_of_inactivity : forall maxf tr, 0 < maxf ->
+  stale_ticks gen_variant (pinit maxf) tr = 0 ->
+  let p := prun gen_variant (pinit maxf) tr in
+  p_count p = 0 /\ reason (pb p) <> Some CInactive /\ h_first (pb p) <> Some (Some CInactive) /\
+  rp (pb p) <> RReport (Some CInactive) /\
+  forall h, get_c (pb p) h <> Some (CDone (OCause CInactive)).
+Proof. exact active_never_inactive. Qed.
+Print Assumptions C09_active_connection_never_dies_of_inactivity.
+
+(* the same, by the labels alone: no inactivity tick of the run is stale *)
+Theorem C09_fresh_ticks_never_die_of_inactivity : forall maxf tr, 0 < maxf ->
+  (forall l, In l tr -> l <> LInactTick true) ->
+  let p := prun gen_variant (pinit maxf) tr in
+  p_count p = 0 /\ reason (pb p) <> Some CInactive /\ h_first (pb p) <> Some (Some CInactive) /\
+  rp (pb p) <> RReport (Some CInactive) /\
+  forall h, get_c (pb p) h <> Some (CDone (OCause CInactive)).
+Proof. exact fresh_ticks_never_inactive. Qed.
+Print Assumptions C09_fresh_ticks_never_die_of_inactivity.
+
+(* the same, by traffic: every tick the read task processes is on time (a message received since the previous tick
+   makes it fresh) and a message did arrive since the previous tick *)
+Theorem C09_regular_traffic_never_dies_of_inactivity : forall maxf tr, 0 < maxf ->
+  regular gen_variant (pinit maxf) tr ->
+  let p := prun gen_variant (pinit maxf) tr in
+  p_count p = 0 /\ reason (pb p) <> Some CInactive /\ h_first (pb p) <> Some (Some CInactive) /\
+  rp (pb p) <> RReport (Some CInactive) /\
+  forall h, get_c (pb p) h <> Some (CDone (OCause CInactive)).
+Proof. exact regular_traffic_never_inactive. Qed.
+Print Assumptions C09_regular_traffic_never_dies_of_inactivity.
+
+(* InactivityCheck::count only grows and equals the number of stale ticks processed so far: the failures are cumulative,
+   not consecutive (neither a received message nor a fresh tick resets it); the inactivity arm breaks exactly when the
+   count, after the tick, has reached max_failures *)
+Theorem C09_inactivity_count_monotone : forall maxf tr l, let p := prun gen_variant (pinit maxf) tr in
+  p_count p <= p_count (pstep gen_variant p l) /\
+  p_count p = stale_ticks gen_variant (pinit maxf) tr /\
+  p_max p = maxf /\
+  (forall stale, penabled gen_variant p (LInactTick stale) = true ->
+     let c := if stale then p_count p + 1 else p_count p in
+     pb (pstep gen_variant p (LInactTick stale)) = if maxf <=? c then step gen_variant (pb p) LInactive else pb p).
+Proof. exact inactivity_count_monotone. Qed.
+Print Assumptions C09_inactivity_count_monotone.
+
+(* the ping layer adds no behaviour to the shutdown protocol: its runs project to runs of `step` (so every theorem
+   above holds of them), LInactive arising only from the inactivity check *)
+Theorem C09_ping_layer_refines : forall tr p,
+  pb (prun gen_variant p tr) = run gen_variant (pb p) (base_trace gen_variant p tr).
+Proof. exact (prun_base VNow). Qed.
+Print Assumptions C09_ping_layer_refines.
+
+Example C09_inactivity_nonvacuous :
+  let p := prun VNow (pinit 2) tr_ping_up in
+  started (pb p) = false /\ p_count p = 1 /\ h_pings p = 1 /\
+  let p1 := pstep VNow p (LInactTick true) in
+  let s2 := drive VNow false (mu (pb p1)) (pb p1) in
+  p_count p1 = 2 /\ all_exited s2 = true /\ reason s2 = Some CInactive /\
+  get_c (run VNow s2 [LCallerDropped 1; LReadErr 1]) 1 = Some (CDone (OCause CInactive)) /\
+  get_c s2 2 = Some (CDone OOk) /\
+  get_c (run VNow s2 [LCallerDropped 3; LReadErr 3]) 3 = Some (CDone (OCause CInactive)) /\
+  get_c (run VNow s2 [LOnDisc 4; LReadErr 4]) 4 = Some (CDone (OCause CInactive)) /\
+  stale_ticks VNow (pinit 2) (tr_ping_up ++ [LInactTick true]) = 2 /\
+  started (pb (prun VNow (pinit 3) (tr_ping_up ++ [LInactTick true]))) = false /\
+  sp (pb (prun VNow (pinit 2) (tr_ping_up ++ [LBase LSendOk; LPingTick false]))) = SReport (Some CSend) /\
+  penabled VNow (prun VNow (pinit 2) [LBase (LNewCall 1)]) (LPingTick true) = false.
+Proof. exact inactivity_example. Qed.
